@@ -19,9 +19,9 @@ AllCfgs == [g0 : BOOLEAN, g1 : BOOLEAN, g2 : BOOLEAN, g3 : BOOLEAN, sg0 : BOOLEA
             ld3 : BOOLEAN, st0 : BOOLEAN, mo0 : BOOLEAN, sh0 : BOOLEAN, wa0 : BOOLEAN, xw0 : BOOLEAN, al0 : BOOLEAN, as0 : BOOLEAN,
             l2 : BOOLEAN, w0 : BOOLEAN, i0 : BOOLEAN, z0 : BOOLEAN, d0 : BOOLEAN,
             zip : {"p", "mix", "z"}, vdl : BOOLEAN, mode : {"ac", "dc"}, tmodel : {"t", "pi"}, qlims : BOOLEAN, qtight : BOOLEAN,
-            dslack : BOOLEAN, wts : 1..3, scal : {"one", "half"}, shvn : {"bus", "other"}, sn : {1, 10}, ls2g : BOOLEAN,
+            qstag : BOOLEAN, dslack : BOOLEAN, wts : 1..3, scal : {"one", "half"}, shvn : {"bus", "other"}, sn : {1, 10}, ls2g : BOOLEAN,
             shpq : {"std", "equal", "table"}, alg : {"nr", "fdbx"}]
-Opts(zip, vdl, mode, ql, ds) == [zip |-> zip, vdl |-> vdl, mode |-> mode, tmodel |-> "t", qlims |-> ql, qtight |-> ql, dslack |-> ds,
+Opts(zip, vdl, mode, ql, ds) == [zip |-> zip, vdl |-> vdl, mode |-> mode, tmodel |-> "t", qlims |-> ql, qtight |-> ql, qstag |-> FALSE, dslack |-> ds,
                                  wts |-> 2, scal |-> "one", shvn |-> "other", sn |-> 1, ls2g |-> TRUE, shpq |-> "std", alg |-> "nr"]
 CornerOpt == {Opts("p", FALSE, "ac", FALSE, FALSE), Opts("mix", TRUE, "ac", FALSE, FALSE), Opts("p", FALSE, "dc", FALSE, FALSE),
               Opts("p", FALSE, "ac", TRUE, FALSE), Opts("p", FALSE, "ac", FALSE, TRUE), Opts("mix", TRUE, "ac", TRUE, TRUE),
@@ -29,7 +29,9 @@ CornerOpt == {Opts("p", FALSE, "ac", FALSE, FALSE), Opts("mix", TRUE, "ac", FALS
               [Opts("p", FALSE, "ac", TRUE, TRUE) EXCEPT !.ls2g = FALSE, !.scal = "half"],
               [Opts("p", FALSE, "ac", FALSE, FALSE) EXCEPT !.shpq = "equal", !.sn = 10],
               [Opts("p", FALSE, "ac", FALSE, FALSE) EXCEPT !.shpq = "table"], [Opts("p", FALSE, "dc", FALSE, FALSE) EXCEPT !.shpq = "table"],
-              [Opts("p", FALSE, "ac", TRUE, FALSE) EXCEPT !.alg = "fdbx"], [Opts("p", FALSE, "ac", FALSE, FALSE) EXCEPT !.alg = "fdbx"]}
+              [Opts("p", FALSE, "ac", TRUE, FALSE) EXCEPT !.alg = "fdbx"], [Opts("p", FALSE, "ac", FALSE, FALSE) EXCEPT !.alg = "fdbx"],
+              \* reactive limits that become binding one after the other: both Newton back-ends
+              [Opts("p", FALSE, "ac", TRUE, FALSE) EXCEPT !.qstag = TRUE], [Opts("p", FALSE, "ac", TRUE, FALSE) EXCEPT !.qstag = TRUE, !.ls2g = FALSE]}
 AllOn == [n \in ElNames |-> TRUE]
 AllOff == [n \in ElNames |-> FALSE]
 CornerOn == {AllOn, AllOff} \cup {[AllOn EXCEPT ![n] = FALSE] : n \in ElNames} \cup {[AllOff EXCEPT ![n] = TRUE] : n \in ElNames}
@@ -41,7 +43,7 @@ Corners == {e @@ o : e \in CornerOn, o \in CornerOpt}
 \* configurations the properties speak about
 WellFormed(c) == /\ (c.g1 => c.g0)                                               \* two gens on one bus share the setpoint
                  /\ (c.mode = "dc" => ~c.dslack /\ ~c.qlims /\ ~c.vdl /\ ~c.qtight)
-                 /\ (c.qtight => c.qlims)
+                 /\ (c.qtight => c.qlims)                                        \* (qstag is without effect unless qtight, g0 and g2)
                  /\ (c.dslack => ~c.d0)                                           \* dcline gens carry no slack weight
                  /\ (c.alg # "nr" => c.mode = "ac" /\ ~c.vdl /\ ~c.dslack /\ c.ls2g)     \* what the PYPOWER algorithms support
 Init == cfg \in (Corners \cup RandomSubset(NRandom, AllCfgs)) /\ WellFormed(cfg)
